@@ -62,6 +62,9 @@ BOUNDS = {
               "slit_both": "(L/qmid, W/qmin) in (0.8, 0.1), (0.1, 0.5), (5, 0.3)",
               "slit_width_folded_over_qmin": [5.0, 2.3, 1.2, 1.0],
               "pinhole_folded_q_over_sigma": [0.4, 1.0, 2.0, 2.5],
+              "p2d_pixel_patterns": "uniform widths, and per-pixel cycles (ordinary / radial width 0 / tangential width 0), the same "
+                                    "shifted by one pixel, and with a fourth state (both 0)",
+              "copy_round_trip": "copy.deepcopy and pickle of every resolution object, then apply: bit-identical",
               "second_use": "every apply(): the theory array is compared bit for bit with its copy and applied a second time",
               "storage_order": "every 1-D case of the intensities linear and dampedcos also with the data points stored "
                                "descending, rotated (cyclic shift n//3) and interleaved (two banks)",
@@ -88,6 +91,7 @@ BOTH_SETS = [(0.8, 0.1), (0.1, 0.5), (5.0, 0.3)]
 FOLD_WID_SETS = [5.0, 2.3, 1.2, 1.0]
 # folded pinhole windows: q/sigma < 2.5 puts part of [q-2.5s, q+3s] below zero; 2.5 ends the window on q = 0
 FOLD_PIN_RATIOS = [0.4, 1.0, 2.0, 2.5]
+P2D_PATTERNS = ["one-zero", "one-zero-shifted", "with-both-zero"]     # per-pixel zero widths mixed with ordinary pixels
 ORDER_FNS = ["linear", "dampedcos"]       # intensities for which every 1-D case is repeated in the other storage orders
 FOLD_BOTH_SETS = [(0.8, 5.0), (0.3, 1.2), (2.0, 1.0), (0.1, 2.3)]
 FN_NAMES = ["const", "linear", "quadratic", "lorentz2", "dampedcos"]
@@ -134,6 +138,8 @@ def cases(ctx):
         for s in range(len(SIG2D)):
             for form in FORMS2D:
                 out.append({"kind": "p2d", "acc": acc, "set": s, "form": form, "qref": qref})
+                for pattern in P2D_PATTERNS:
+                    out.append({"kind": "p2d", "acc": acc, "set": s, "form": form, "qref": qref, "pattern": pattern})
     return out
 
 
@@ -210,6 +216,17 @@ def _apply_twice(cv, r, res, theory):
                % (first[k] if second.shape == first.shape else first.shape, second[k] if second.shape == first.shape else second.shape, k),
                what="apply")
     r.branch("apply-twice")
+    # copy round trip (deepcopy / pickle, as a parallel fit does): the copy gives the judged values bit for bit
+    for how, twin, refusal in H.copy_round_trips(res):
+        if twin is None:
+            cv.bad("copy", "%s of the resolution object failed: %s" % (how, refusal), how=how, what="refused")
+            continue
+        third = np.array(twin.apply(keep.copy()), float)
+        if third.shape != first.shape or not np.array_equal(first, third, equal_nan=True):
+            k = int(np.argmax(first != third)) if third.shape == first.shape else 0
+            cv.bad("copy", "the %s copy gives %r at data point %d, the original %r"
+                   % (how, third[k] if third.shape == first.shape else third.shape, k, first[k]), how=how, what="result")
+        r.branch("copy:" + how)
     return first
 
 
@@ -578,10 +595,26 @@ def run_p2d(case, ctx, r):
     qr = np.sqrt(qx ** 2 + qy ** 2)
     rp, rt = SIG2D[case["set"]]
     spar, sperp = rp * qr, rt * qr
+    pattern = case.get("pattern", "uniform")
+    if pattern != "uniform":
+        # per-pixel widths: ordinary pixels mixed with pixels that have exactly ONE of the two widths zero, both ways round
+        # (and, in "with-both-zero", pixels with no width at all); the phase of the cycle is part of the pattern name
+        cyc = {"one-zero": 3, "one-zero-shifted": 3, "with-both-zero": 4}[pattern]
+        k = (np.arange(len(qr)) + (1 if pattern == "one-zero-shifted" else 0)) % cyc
+        spar = np.where((k == 1) | (k == 3), 0.0, spar)        # k = 1: radial width 0, tangential > 0
+        sperp = np.where((k == 2) | (k == 3), 0.0, sperp)      # k = 2: tangential width 0, radial > 0; k = 3: both 0
     a, b, c, d = _form(case["form"], qref)
     fk = {"class": "Pinhole2D", "form": case["form"], "accuracy": case["acc"], "widths": "par=%gq,perp=%gq" % (rp, rt)}
-    desc = ("Pinhole2D(Data2D(ring(%r, %r) x directions %s deg, dx=%r*q, dy=%r*q), accuracy=%r).apply(Q), "
-            "Q = %r qx^2 + %r qx qy + %r qy^2 + %r" % (qref, 3.1 * qref, DIRS, rp, rt, case["acc"], a, b, c, d))
+    if pattern != "uniform":
+        fk["pattern"] = pattern
+        r.branch("p2d-pattern:" + pattern)
+        r.branch("p2d:radial-zero-only", int(np.sum((spar == 0) & (sperp > 0))))
+        r.branch("p2d:tangential-zero-only", int(np.sum((sperp == 0) & (spar > 0))))
+    desc = ("Pinhole2D(Data2D(ring(%r, %r) x directions %s deg, dx=%r*q, dy=%r*q%s), accuracy=%r).apply(Q), "
+            "Q = %r qx^2 + %r qx qy + %r qy^2 + %r"
+            % (qref, 3.1 * qref, DIRS, rp, rt, "" if pattern == "uniform" else
+               "; per pixel <%s>: dx=%s..., dy=%s..." % (pattern, np.round(spar[:4], 7), np.round(sperp[:4], 7)),
+               case["acc"], a, b, c, d))
     cv = Conv(r, fk, desc)
     data = Data2D(x=qx.copy(), y=qy.copy(), dx=spar.copy(), dy=sperp.copy())
     with warnings.catch_warnings():
@@ -639,6 +672,12 @@ def finish(ctx, report):
     for a in ACCURACIES:
         report.require("p2d:" + a, len(SIG2D) * len(FORMS2D), "2-D accuracy level")
     report.require("nontrivial", 500, "smeared value differs from the unsmeared one")
+    for pat in P2D_PATTERNS:
+        report.require("p2d-pattern:" + pat, len(ACCURACIES) * len(SIG2D) * len(FORMS2D), "per-pixel zero-width pattern")
+    report.require("p2d:radial-zero-only", 500, "pixels with radial width 0 and tangential width > 0")
+    report.require("p2d:tangential-zero-only", 500, "pixels with tangential width 0 and radial width > 0")
+    for how in ("deepcopy", "pickle"):
+        report.require("copy:" + how, 500, "copy round trip of the resolution object")
     report.require("apply-twice", 500, "apply() twice on the same theory array, array compared with its copy")
     for o in H.ORDERS[1:]:
         report.require("order:" + o, 40, "1-D cases with the data points stored in another order")
